@@ -20,15 +20,18 @@ ASSUMPTIONS = [
     "(Go's AddDate is not modelled)",
     "RewardInterval/BlockSpeedCalculateCycle > 0 and unchanged during a run (governance updates of reward options are outside the model)",
     "storage errors (Set/Get failing) are outside the model",
+    "WITHDRAW_REWARD on the application path: the model withdraw_tx covers the amount check of Validate (45cfd0d), the int64 narrowing of "
+    "ToCoinWithBase and the balance/pool sufficiency; signer = the validator's stake address and a funded fee payer in all generated transactions",
 ]
 
 MISMATCH = {1: "cold pull", 7: "warm pull", 2: "validator credits", 3: "delegator credits", 4: "consumed total",
-            5: "year records", 6: "matured/cumulative records", 9: "model predicts a panic"}
+            8: "WITHDRAW_REWARD verdict/records", 5: "year records", 6: "matured/cumulative records", 9: "model predicts a panic"}
 VIOL = {10: "credits exceed the pulled amount", 11: "negative credit", 12: "negative pulled amount",
         20: "per-block amount depends on a restart (warm cache <> cold cache)",
         21: "pulled amount above the remaining year supply / the pool-capped burnout rate",
         30: "cumulative invariant broken (balance < 0 or balance + withdrawn <> matured)",
-        31: "a withdrawal paid more than the matured balance"}
+        31: "a withdrawal paid more than the matured balance",
+        32: "a negative WITHDRAW_REWARD amount was accepted (CheckTx or DeliverTx) or changed the cumulative records"}
 KNOWN = {}   # monitor code -> trigger id of a finding with status "known" (none at present: all three are fixed)
 
 
@@ -144,6 +147,13 @@ def finding_inputs(ctx):
     return p, len(ins)
 
 
+def corpus_wvalues():
+    cp = os.path.join(common.VERIF, "corpus", "C13.json")
+    if os.path.exists(cp):
+        return json.load(open(cp)).get("withdraw_values", [])
+    return []
+
+
 def run(ctx):
     broken = None
     try:
@@ -163,6 +173,8 @@ def run(ctx):
                 "-pcases", str(per["pcases"]), "-pblocks", str(per["pblocks"]), "-qcases", str(per["qcases"]), "-qops", str(per["qops"])]
         if i == 0 and nf:
             args += ["-replay-pcases", fpath]
+        if corpus_wvalues():
+            args += ["-corpus-wvalues", ",".join(corpus_wvalues())]
         jobs.append((i, args))
     with ThreadPoolExecutor(max_workers=min(14, nparts)) as ex:
         parts = list(ex.map(lambda j: run_part(ctx, vh, j[0], j[1]), jobs))
@@ -187,6 +199,8 @@ def run(ctx):
         "calculator_runs": tot["pcases"], "calculator_steps": tot["psteps"],
         "cumulative_sequences": tot["qcases"], "cumulative_ops": tot["qops"],
         "finding_witnesses_replayed": nf,
+        "withdraw_reward_txs_compared": sum(v for k, v in hist.items() if k.startswith("chain.withdraw_reward.")),
+        "corpus_withdraw_values": corpus_wvalues(),
         "histogram": hist, "samples": parts[0]["rep"]["samples"],
         "explanation": "theorems of props/C13.v re-checked; Rewards.v (split, calculator, cumulative records) evaluated by vm_compute on every "
                        "recorded block of real app.App runs and on every step of package-level runs of rewards.RewardCumulativeStore "
